@@ -60,7 +60,7 @@ Print Assumptions C02_nonneg_history.
    non-negative amounts; when they reject, the transaction is a no-op (tx_ops None = None; run_tx of a refused
    list is the identity).  Guards used: SEND/SENDPOOL/DOMAIN_SEND Amount.IsValid; STAKE/UNSTAKE/WITHDRAW value >= 0
    and fits int64 (48c76fc: then the narrowed debit ToCoinWithBase(v) equals the credit v); delegation kinds coin
-   valid and OLT (1d1d85c); PROPOSAL_CREATE initial-funding option <= v; PROPOSAL_FUND / PROPOSAL_WITHDRAW_FUNDS v > 0 (65cdcf3, 7960770); DOMAIN_* price > base price / per-block fee,
+   valid and OLT (1d1d85c); PROPOSAL_CREATE initial-funding option <= v; PROPOSAL_FUND / PROPOSAL_WITHDRAW_FUNDS v > 0 (782c385, 19a3caa); DOMAIN_* price > base price / per-block fee,
    asking price <= offer.  no_creation ops := forall c, minted c ops - burned c ops <= 0;
    credits_ok ops := every added amount >= 0 (with C02_nonneg_tx: no record becomes negative). *)
 Theorem C02_no_creation_send : forall known cur from to v payer fp fee ops, 0 <= fee -> effect_send known cur from to v = Some ops ->
@@ -136,7 +136,7 @@ Theorem C02_no_creation_withdraw_reward : forall known cur signer rpool v payer 
 Proof. exact withdraw_reward_no_creation. Qed.
 Print Assumptions C02_no_creation_withdraw_reward.
 
-(* PROPOSAL_FUND and PROPOSAL_WITHDRAW_FUNDS are FULL since /repo 65cdcf3 / 7960770 (the handlers require a positive amount).
+(* PROPOSAL_FUND and PROPOSAL_WITHDRAW_FUNDS are FULL since /repo 782c385 / 19a3caa (the handlers require a positive amount).
    The former refutation witnesses (findings C02.proposal_fund_negative / C02.withdraw_funds_negative, fixed) are rejected now: *)
 Definition l_w : gmap key Z := ladd (ladd ∅ (bal 1 0) 1000) (bal 2 0) 3.
 Example C02_former_witness_proposal_fund_rejected :
